@@ -46,6 +46,12 @@ Theorem C04_concat (n : nat) p (c : cfg (concat_op n)) :
 Proof. exact (fun H Hc => pk_c04 (concat_protocol H Hc)). Qed.
 Print Assumptions C04_concat.
 
+(** flatten: every emitted inner is a fresh source (guard [g_flatten]) *)
+Theorem C04_flatten p (c : cfg flatten_op) :
+  std p -> reach p g_flatten c -> forall i, sub_once i (trace c) /\ talkback_only_live i (trace c) /\ stop_once i (trace c) /\ no_pull_outside i (trace c).
+Proof. exact (fun H Hc => pk_c04 (flatten_protocol H Hc)). Qed.
+Print Assumptions C04_flatten.
+
 (** combine (every arity n >= 1).  combine has recorded deviations (known_findings.json: KF1, KF2);
     the theorem is that the monitor never records anything *but* those four kinds, so the
     kinds of this property never occur. *)
